@@ -16,4 +16,5 @@ CONSTANTS
   FixDeriveGuards = TRUE
   FixLateTrack = TRUE
   FixDeleteOnAccept = TRUE
+  FixStoreOnAccept = TRUE
 INVARIANTS BoundedFiles
